@@ -266,10 +266,21 @@ func privKey[T Number, A ND[T, A]](root *Root[T, A], v A) string {
 	for rv.Kind() == reflect.Interface || rv.Kind() == reflect.Ptr {
 		rv = rv.Elem()
 	}
-	common := rv.Field(0)
+	// every field of the embedded layout struct, whatever it is called (a field added by a later version of the
+	// library makes the key finer, never coarser), then where the view's storage pointer points
 	var b strings.Builder
-	for _, f := range []string{"Start", "Dims", "OriginalDims", "Offset", "Step", "OffsetStep"} {
-		fmt.Fprintf(&b, "%s=%v;", f, common.FieldByName(f).Interface())
+	for i := 0; i < rv.NumField(); i++ {
+		f := rv.Field(i)
+		if rv.Type().Field(i).Name == "Impl" {
+			continue
+		}
+		if f.Kind() == reflect.Struct {
+			for j := 0; j < f.NumField(); j++ {
+				fmt.Fprintf(&b, "%s=%v;", f.Type().Field(j).Name, f.Field(j))
+			}
+		} else {
+			fmt.Fprintf(&b, "%s=%v;", rv.Type().Field(i).Name, f)
+		}
 	}
 	impl := rv.FieldByName("Impl")
 	switch impl.Kind() {
